@@ -88,6 +88,7 @@ std::string classify(const std::string& msg) {
   if (starts_with(first, "unknown pool name '")) return "unknown_pool";
   if (starts_with(first, "multiple rules generate ")) return "multiple_rules";
   if (starts_with(first, "loading '")) return "loading";
+  if (starts_with(first, "include nesting too deep")) return "include_depth";
   if (starts_with(first, "dyndep '") && contains(msg, "' is not an input")) return "dyndep_not_input";
   if (contains(msg, " is defined as an output multiple times")) return "output_twice";
   if (starts_with(first, "expected ")) {
